@@ -25,16 +25,14 @@ Theorem C17_resume_equiv : forall c ops n,
 Proof. exact resume_equiv. Qed.
 
 (* ... in particular after every history of optimizer steps, forward passes, mode changes, options re-set to the value
-   they have, and MPS temperature changes that pass the sampler flags again *)
+   they have, and MPS temperature changes *)
 Theorem C17_resume_equiv_neutral_history : forall c ops n,
   forallb (keeps_opts c) ops = true -> resume_statement c ops n.
 Proof. exact resume_equiv_neutral_history. Qed.
 
 Theorem C17_mps_temperature_persisted : forall c steps1 steps2 t n, c_meth c = MPS ->
   forallb (keeps_opts c) steps1 = true -> forallb (keeps_opts c) steps2 = true ->
-  let g := match c_smp c with Gs => Some true | _ => None end in
-  let d := match c_smp c with NoSamp => Some true | _ => None end in
-  resume_statement c (steps1 ++ OUpdate (Some t) None g d :: steps2) n.
+  resume_statement c (steps1 ++ OUpdate (Some t) None None None :: steps2) n.
 Proof. exact mps_temperature_persisted. Qed.
 
 (* which observation needs which option.  PIT: only the cost reads discrete_cost *)
@@ -57,8 +55,7 @@ Proof. exact mps_eval_resume. Qed.
      forall c ops n, resume_statement c ops n
    is refuted by the faithful model for exactly these options, which are python attributes, not buffers:
      PIT      discrete_cost                      (cost)
-     MPS      hard_softmax, the bound sampler: gumbel_softmax / disable_sampling, incl. the sampler reset performed by a
-              bare update_softmax_options(temperature=..)      (outputs, cost)
+     MPS      hard_softmax, gumbel_softmax, disable_sampling     (outputs, cost)
      SuperNet hard_softmax, softmax temperature   (outputs, cost, summary; in train mode also the BatchNorm statistics
               of the exported network)
    one witness each: *)
@@ -66,7 +63,6 @@ Theorem C17_resume_after_option_change_refuted :
   (exists c ops n, c_meth c = PIT /\ ops = [OStep [] [[3 # 4; 1]] []; OSetDisc true] /\ ~ resume_statement c ops n) /\
   (exists c ops n, c_meth c = MPS /\ ops = [OTrain; OUpdate None (Some true) None None] /\ ~ resume_statement c ops n) /\
   (exists c ops n, c_meth c = MPS /\ ops = [OTrain; OUpdate None None (Some true) None] /\ ~ resume_statement c ops n) /\
-  (exists c ops n, c_meth c = MPS /\ c_smp c = Gs /\ ops = [OTrain; OUpdate (Some (1 # 2)) None None None] /\ ~ resume_statement c ops n) /\
   (exists c ops n, c_meth c = MPS /\ ops = [OTrain; OForward 1; OStep [] [] [[[2; 1]]]; OUpdate None None None (Some true)] /\ ~ resume_statement c ops n) /\
   (exists c ops n, c_meth c = SN /\ ops = [OEval; OUpdate None (Some true) None None] /\ ~ resume_statement c ops n) /\
   (exists c ops n, c_meth c = SN /\ ops = [OTrain; OUpdate (Some (1 # 2)) None None None] /\ ~ resume_statement c ops n).
@@ -92,7 +88,7 @@ Example C17_example :
   let q := {| s_names := ["seed.c.out_mps_quantizer"; "seed.l.in_mps_quantizer"]%string; s_reach := true;
               s_alpha := [[1 # 4; 1 # 2; 1]]; s_prec := [2; 4; 8]; s_temp := 1; s_theta := [CInit] |} in
   let c := {| c_meth := MPS; c_pers := {| p_bn := false; p_net := [("seed.c.weight"%string, 11%Z)]; p_masks := []; p_layers := []; p_samplers := [q] |};
-              c_training := true; c_disc := false; c_hard := false; c_smp := Sm; c_temp := 1 |} in
+              c_training := true; c_disc := false; c_hard := false; c_gum := false; c_nos := false; c_temp := 1 |} in
   let ops := [OTrain; OForward 1; OStep [12%Z] [] [[[1; 1 # 2; 1 # 4]]]; OUpdate (Some (1 # 2)) None None None; OForward 2; OStep [13%Z] [] [[[3; 1; 2]]]; OEval] in
   opts_match (run (fresh c) ops) c /\ List.length (keys MPS (save (run (fresh c) ops))) = 9%nat /\
   forallb (keeps_opts c) ops = true /\
